@@ -11,6 +11,8 @@ from vlib import oracle_ptr as O
 from vlib.hs import Leaf, P, kf, ok, pick, same_json, small, why
 
 OPS: List[Dict[str, Any]] = P.get("ops", [{"op": "add", "path": ["a", "$i"], "value": "$v"}])
+OPTS: Dict[str, Any] = P.get("opts", {})  # JSONPatch(..., unicode_escape=, uri_decode=)
+RAWPATHS: List[str] = P.get("rawpaths", [])  # pointer texts on which the options make a difference
 IDX = [0, 1, 2, 3, "-"]
 _LT = {"leaf": Leaf, "int": int, "boolint": Union[bool, int]}
 VT = _LT[P.get("vleaf", "int")]
@@ -57,7 +59,7 @@ def _dicts(ops: List[Dict[str, Any]]) -> List[Dict[str, Any]]:
 
 
 def _builder(ds: List[Dict[str, Any]]) -> JSONPatch:
-    p = JSONPatch()
+    p = JSONPatch(**OPTS)
     for d in ds:
         k = d["op"]
         if k in ("add", "addne", "addap", "replace", "test"):
@@ -104,9 +106,9 @@ def faithful(l0: int, l1: int, n: int, ii: int, v: VT, w: VT) -> bool:
     i = pick(IDX, ii)
     ds = _dicts(_subst(OPS, i, v, w))
     given = _dicts(_subst(OPS, i, v, w))  # an equal, separate copy for comparison
-    a = JSONPatch(ds)
+    a = JSONPatch(ds, **OPTS)
     b = _builder(_dicts(_subst(OPS, i, v, w)))
-    c = JSONPatch(a.asdicts())
+    c = JSONPatch(a.asdicts(), **OPTS)
     if not why(_same_dicts(a.asdicts(), given), "dict form does not print the given dicts", a.asdicts(), given):
         return ok(False)
     if not why(_same_dicts(b.asdicts(), given), "builder form prints differently", b.asdicts(), given):
@@ -192,3 +194,30 @@ def variants(l0: int, l1: int, n: int, ti: int, v: int) -> bool:
 
 
 TARGETS = ["/a/0", "/a/1", "/a/2", "/a/5", "/a/-", "/b/c", "/b/new", "/k", "/new", "", "/a/x", "/zz/x"]
+
+
+def options(pi: int, which: int, v: int, l0: int) -> bool:
+    """Patches constructed with non-default options: the document form and the builder form print the same dicts and have
+    the same effect (the options apply to pointer text in both).
+
+    pre: 0 <= pi < len(RAWPATHS)
+    pre: 0 <= which <= 2
+    post: _
+    """
+    path = pick(RAWPATHS, pi)
+    if which == 0:
+        ds = [{"op": "add", "path": path, "value": v}]
+    elif which == 1:
+        ds = [{"op": "add", "path": path, "value": v}, {"op": "copy", "from": path, "path": "/cp"}]
+    else:
+        ds = [{"op": "add", "path": path, "value": [v]}, {"op": "move", "from": path, "path": "/mv"}, {"op": "test", "path": "/mv", "value": [v]}]
+    a = JSONPatch([dict(d) for d in ds], **OPTS)
+    b = _builder(ds)
+    if not why(_same_dicts(a.asdicts(), b.asdicts()), "document and builder forms print differently", OPTS, a.asdicts(), b.asdicts()):
+        return ok(False)
+    c = JSONPatch(a.asdicts(), **OPTS)
+    doc = {"a b": {"c": l0}, "xA": 1, "x\\u0041": 2, "a%20b": {"c": 0}}
+    ra = _apply(a, copy.deepcopy(doc))
+    rb = _apply(b, copy.deepcopy(doc))
+    return ok(why(ra[0] == rb[0] and (ra[0] == "err" or same_json(ra[1], rb[1])), "document and builder forms have different effects", OPTS, path, ra, rb)
+              and _same_dicts(c.asdicts(), a.asdicts()))
